@@ -38,7 +38,7 @@ class SW(Worker):
         return False
 
     def is_alive(self):
-        if not self._started:
+        if not self._started or self._dead:      # as the real kinds: not alive before _start() has produced a child
             return False
         return self._alive
 
@@ -292,7 +292,7 @@ def h_conc(n, a0, a1, a2, a3, j, bop):
     active_children() makes its j-th liveness poll."""
     from .. import sim as simmod, vos
     with notrace():
-        n_, j_, bop_ = conc(n, 5), conc(j, 5), conc(bop, 2)
+        n_, j_, bop_ = conc(n, 5), conc(j, 5), conc(bop, 3)
         alive = [a0, a1, a2, a3][:n_]
         _reset()
         s = simmod.new_sim()
@@ -309,7 +309,14 @@ def h_conc(n, a0, a1, a2, a3, j, bop):
                     if i == j_:
                         s.yield_()
                 return SW.is_alive(self_w)
+
+            def _start(self_w):
+                if slow_start[0]:
+                    slow_start[0] = False
+                    s.yield_()              # starting a child takes time: other threads run meanwhile
+                SW._start(self_w)
         polling = [False]
+        slow_start = [False]
         try:
             workers = [CW(True, run=True) for _ in range(n_)]
             for i in range(n_):
@@ -324,9 +331,16 @@ def h_conc(n, a0, a1, a2, a3, j, bop):
                     w = workers[0]
                     Worker.__init__(w, _noop, run=True, _is_restart=True)
                     w._alive = True
+            if bop_ == 2:
+                # the main thread creates a worker whose start takes a while; meanwhile the other thread calls active_children()
+                def other():
+                    list(Worker.active_children())
             b = s.spawn(other, "other-thread")
             b.priority = 1                   # runs only when the main actor yields or blocks
             ev("conc", n_, j_, bop_)
+            if bop_ == 2:
+                slow_start[0] = True
+                created.append(CW(True, run=True))
             polling[0] = True
             try:
                 first = list(Worker.active_children())
@@ -348,8 +362,8 @@ def h_conc(n, a0, a1, a2, a3, j, bop):
 
 H_CONC = Harness(
     "conc", "vf.props.c19:h_conc",
-    OrderedDict([("n", (0, 4))] + [("a%d" % i, (0, 1)) for i in range(4)] + [("j", (0, 4)), ("bop", (0, 1))]),
-    tiers={"quick": {"fixed": {"bop": 0}, "partition": ["n"], "timeout": 120, "twin_fixed": {"n": 2}},
+    OrderedDict([("n", (0, 4))] + [("a%d" % i, (0, 1)) for i in range(4)] + [("j", (0, 4)), ("bop", (0, 2))]),
+    tiers={"quick": {"partition": ["n", "bop"], "filter": (lambda f: f["bop"] != 1), "timeout": 120, "twin_fixed": {"n": 2, "bop": 0}},
            "thorough": {"partition": ["n", "bop"], "timeout": 300, "twin_fixed": {"n": 2, "bop": 0}}},
     functions=["pyworkers.worker:Worker.active_children", "pyworkers.worker:Worker.register_child", "pyworkers.worker:Worker.__init__"],
 )
